@@ -482,6 +482,9 @@ func gen(r *Rng, tier string, emit Emit) {
 			emit("P", "p_total_cbfs", H(mutate(br, rom)))
 		}
 	}
+
+	// boundary values of the image length itself
+	genLengths(r.Fork(91), thorough, emit)
 }
 
 func sortStrings(s []string) {
